@@ -105,6 +105,40 @@ fn base_problem(k: usize) -> Prob {
             b: vec![0.0, 1.0, 0.0, 2.0],
             cones: vec![Exp, Zero(1)],
         },
+        // runs of structurally empty columns in front of a stored entry (index -> column look-ups of the partial
+        // forms), with column magnitudes that make the scaling factors of the columns differ
+        4 => Prob {
+            n: 4,
+            m: 8,
+            p: Dense::from_rows(&[vec![1.0, 0.0, 0.0, 0.0], vec![0.0; 4], vec![0.0; 4], vec![0.0, 0.0, 0.0, 2.0]], 4),
+            p_full: false,
+            q: vec![-3.0, 1.0, -2000.0, -9.0],
+            a: Dense::from_rows(
+                &[
+                    vec![1.0, 0.0, 0.0, 0.0],
+                    vec![-1.0, 0.0, 0.0, 0.0],
+                    vec![0.0, 1.0, 0.0, 0.0],
+                    vec![0.0, -1.0, 0.0, 0.0],
+                    vec![0.0, 0.0, 1000.0, 0.0],
+                    vec![0.0, 0.0, -1000.0, 0.0],
+                    vec![0.0, 0.0, 0.0, 1.0],
+                    vec![0.0, 0.0, 0.0, -1.0],
+                ],
+                4,
+            ),
+            b: vec![1.0, 1.0, 1.0, 1.0, 1000.0, 1000.0, 2.0, 2.0],
+            cones: vec![NN(8)],
+        },
+        5 => Prob {
+            n: 4,
+            m: 4,
+            p: Dense::from_rows(&[vec![1.0, 0.0, 0.0, 0.0], vec![0.0, 2.0, 0.0, 0.0], vec![0.0, 0.0, 1.0, 0.0], vec![0.0, 0.0, 0.0, 1e-4]], 4),
+            p_full: false,
+            q: vec![-3.0, 1.0, -2.0, -0.5],
+            a: Dense::from_rows(&[vec![1.0, 0.0, 0.0, 0.0], vec![-1.0, 0.0, 0.0, 0.0], vec![0.0, 0.0, 0.0, 100.0], vec![0.0, 0.0, 0.0, -100.0]], 4),
+            b: vec![1.0, 1.0, 200.0, 200.0],
+            cones: vec![NN(4)],
+        },
         _ => Prob {
             n: 3,
             m: 6,
@@ -645,6 +679,13 @@ pub fn spaces(tier: &str, _seed: u64) -> Vec<Box<dyn Space>> {
             }
         }
     }
+    for base in 4..6 {
+        for equil in [true, false] {
+            for depth in 1..=(if thorough { 3 } else { 2 }) {
+                v.push(Box::new(Hist { depth, base, equil, presolve_active: false }));
+            }
+        }
+    }
     for depth in 1..=2 {
         v.push(Box::new(Hist { depth, base: 0, equil: true, presolve_active: true }));
     }
@@ -653,7 +694,7 @@ pub fn spaces(tier: &str, _seed: u64) -> Vec<Box<dyn Space>> {
 
 #[allow(dead_code)]
 pub fn debug_scalings() {
-    for k in 0..4 {
+    for k in 0..6 {
         let p = base_problem(k);
         let s = p.build(SettingsSpec::default().build());
         println!("base {} c={} d={:?} e={:?}", k, s.data.equilibration.c, s.data.equilibration.d, s.data.equilibration.e);
